@@ -4104,6 +4104,9 @@ def fix_raise_missing_from(source: str) -> str:
     except {{exception}} as error:
         raise {{something}} from error
     """
+    if any(core.walk(core.parse(source), ast.Name(id="error"))):
+        return  # "as error" would capture, and afterwards delete, a variable of that name
+
     yield from processing.find_replace(source, find, replace)
 
 
